@@ -179,6 +179,31 @@ impl SemanticState {
             )?,
         );
 
+        // the struct generated for a `vftable` block is called `<Type>Vftable`; no item of the
+        // module may have that name, not even one that happens to be identical to it
+        let generated_names: Vec<String> = module
+            .definitions
+            .iter()
+            .filter(|d| {
+                matches!(&d.inner, grammar::ItemDefinitionInner::Type(td)
+                    if td.statements.iter().any(|s| s.field.is_vftable()))
+            })
+            .map(|d| format!("{}Vftable", d.name.as_str()))
+            .collect();
+        for name in module
+            .definitions
+            .iter()
+            .map(|d| d.name.as_str())
+            .chain(module.extern_types.iter().map(|(name, _)| name.as_str()))
+        {
+            if generated_names.iter().any(|g| g == name) {
+                anyhow::bail!(
+                    "duplicate definition of `{}` (is a type named like a generated vftable struct?)",
+                    path.join(name.into())
+                );
+            }
+        }
+
         for definition in &module.definitions {
             let new_path = path.join(definition.name.as_str().into());
             if self.type_registry.get(&new_path).is_some() {
